@@ -23,7 +23,10 @@ var names = []string{"ALPHA", "BRAVO", "CHARLIE", "DELTA", "ECHO",
 // TTLs are hours in the past or in the future, so that expiry is independent of the clock and of
 // scheduling: no run lasts an hour. A registration carries a TTL code: 0 = by name (odd index: one
 // hour in the past, so that the name is always expired at the next sweep; even index: one hour
-// ahead), 1 = +1h, 2 = -1h, 3 = +1000h.
+// ahead), 1 = +1h, 2 = -1h, 3 = +1000h, 4 = 1ns. A time-to-live of one nanosecond is a valid,
+// non-negative value that lies in the past by the time the registering call has returned (run makes
+// sure of it, see settle): it gives expired names without relying on the table accepting a negative
+// time-to-live, which is invalid input a table may refuse.
 func ttlOf(o op) time.Duration {
 	switch o.TTL {
 	case 1:
@@ -32,6 +35,8 @@ func ttlOf(o op) time.Duration {
 		return -time.Hour
 	case 3:
 		return 1000 * time.Hour
+	case 4:
+		return time.Nanosecond
 	}
 	if o.Name%2 == 1 {
 		return -time.Hour
@@ -47,23 +52,52 @@ func ttlString(o op) string {
 	return "+" + d.String()
 }
 
-// addresses; 3 and 4 are the same address in 4-byte and 16-byte form. 6.. exist so that a group can
-// grow well beyond a handful of owners.
+// addresses; 3 and 4 are the same address in 4-byte and 16-byte form. 6..15 exist so that a group can
+// grow well beyond a handful of owners. 16.. are further IPv6 addresses (several distinct non-IPv4
+// owners must stay distinct: link-local addresses that differ in the last byte only, a global one,
+// the deprecated IPv4-compatible form ::10.0.0.1, which is NOT the IPv4 address 10.0.0.1) and the
+// IPv4-mapped form ::ffff:10.0.0.1, which net.IP.Equal identifies with address 0. Identity of owners
+// follows net.IP.Equal throughout.
 var addrs = []net.IP{
 	net.IPv4(10, 0, 0, 1).To4(), net.IPv4(10, 0, 0, 2).To4(), net.IPv4(10, 0, 0, 3).To4(),
 	net.IPv4(192, 168, 7, 7).To4(), net.IPv4(192, 168, 7, 7).To16(), net.ParseIP("fe80::1"),
 	net.IPv4(10, 0, 1, 6).To4(), net.IPv4(10, 0, 1, 7).To4(), net.IPv4(10, 0, 1, 8).To4(), net.IPv4(10, 0, 1, 9).To4(),
 	net.IPv4(10, 0, 1, 10).To4(), net.IPv4(10, 0, 1, 11).To4(), net.IPv4(10, 0, 1, 12).To4(), net.IPv4(10, 0, 1, 13).To4(),
 	net.IPv4(10, 0, 1, 14).To4(), net.IPv4(10, 0, 1, 15).To4(),
+	net.ParseIP("fe80::2"), net.ParseIP("2001:db8::1"), net.ParseIP("::10.0.0.1"), net.ParseIP("::ffff:10.0.0.1"),
 }
 
-// canonical address id: ids that net.IP.Equal identifies map to the same id
-func canon(ip int) int {
-	if ip == 4 {
-		return 3
+// address subsets the generators draw from (indices into addrs)
+var (
+	ipsV4    = []int{0, 1, 2}
+	ipsSix   = []int{0, 1, 2, 3, 4, 5}
+	ipsV6    = []int{5, 16, 17}                  // three distinct IPv6 owners
+	ipsMixed = []int{0, 19, 5, 16, 17, 18, 3, 4} // both forms of two IPv4 addresses next to four IPv6 ones
+	ipsAll   = func() []int {
+		a := make([]int, len(addrs))
+		for i := range a {
+			a[i] = i
+		}
+		return a
+	}()
+)
+
+// canonical address id: ids that net.IP.Equal identifies map to the same (lowest) id
+var canonID = func() []int {
+	c := make([]int, len(addrs))
+	for i := range addrs {
+		c[i] = i
+		for j := 0; j < i; j++ {
+			if addrs[j].Equal(addrs[i]) {
+				c[i] = j
+				break
+			}
+		}
 	}
-	return ip
-}
+	return c
+}()
+
+func canon(ip int) int { return canonID[ip] }
 
 type op struct {
 	Kind string `json:"op"` // reg, query, rel, refresh, conflict, clean
@@ -133,10 +167,21 @@ func ownersKey(ips []net.IP) (string, bool) {
 	return strings.Join(parts, ","), dup
 }
 
+// settle returns once the clock reads at least two nanoseconds more than it did when settle was
+// entered: an expiry of "now + 1ns" computed by a call that has returned before lies strictly in the
+// past for every later call, whatever the clock's granularity. (It is not a delay as a correctness
+// signal: the loop ends as soon as the monotonic clock has moved, normally at the first reading.)
+func settle() {
+	t0 := time.Now()
+	for time.Since(t0) < 2*time.Nanosecond {
+	}
+}
+
 func run(tbl *nbtns.NetBIOSNameServer, o op) (result, []net.IP) {
 	switch o.Kind {
 	case "reg":
 		err := tbl.RegisterName(names[o.Name], nbtns.NameType(o.Type), addrs[o.IP], ttlOf(o))
+		settle()
 		return result{OK: err == nil}, nil
 	case "query":
 		owners, typ, err := tbl.QueryName(names[o.Name])
@@ -148,7 +193,9 @@ func run(tbl *nbtns.NetBIOSNameServer, o op) (result, []net.IP) {
 	case "rel":
 		return result{OK: tbl.ReleaseName(names[o.Name], addrs[o.IP]) == nil}, nil
 	case "refresh":
-		return result{OK: tbl.RefreshName(names[o.Name], addrs[o.IP]) == nil}, nil
+		err := tbl.RefreshName(names[o.Name], addrs[o.IP])
+		settle() // the record's refresh interval may be the nanosecond of its registration
+		return result{OK: err == nil}, nil
 	case "conflict":
 		return result{OK: tbl.MarkNameConflict(names[o.Name]) == nil}, nil
 	}
@@ -170,7 +217,13 @@ type rec struct {
 	Conflict bool
 	Owners   []int // canonical ids in registration order, no duplicates
 	Exp      int   // live, dead, open
-	RI       int   // sign of the refresh interval = sign of the TTL of the registration that created the record
+	// RI says where a refresh puts the expiry: +1 hours ahead (the refresh interval is that of a
+	// registration with a TTL of hours), -1 in the past by the next call (TTL of -1h or 1ns), 0 not
+	// determined. A record is created with the interval of the creating registration; which interval
+	// applies after a later successful registration on the same record (a member joining, an owner
+	// registering again) is not stated by the property: if that registration's TTL points the other
+	// way, the interval is undetermined from then on.
+	RI int
 }
 
 // state is immutable by convention; canonical string form for hashing/equality
@@ -216,7 +269,7 @@ type outcome struct {
 }
 
 func expOf(ttl int64) int {
-	if ttl < 0 {
+	if ttl <= int64(time.Nanosecond) {
 		return dead
 	}
 	return live
@@ -232,6 +285,15 @@ func merge(cur, ttlExp int) int {
 	return open
 }
 
+// mergeRI: the refresh interval after a successful registration (interval sign ri) on an existing
+// record whose interval was cur.
+func mergeRI(cur, ri int) int {
+	if cur == ri {
+		return cur
+	}
+	return 0
+}
+
 // apply returns every (result, next state) the property allows for o in state s.
 // Where the property determines the outcome there is exactly one.
 func apply(s state, o op) []outcome {
@@ -245,16 +307,24 @@ func apply(s state, o op) []outcome {
 		if te == dead {
 			ri = -1
 		}
+		// A negative time-to-live is not a valid one (it is an unsigned number of seconds on the
+		// wire): a table that refuses such a registration, leaving everything as it was, is within
+		// the property. One that accepts it holds a name that is expired from the start.
+		var refusedTTL []outcome
+		if ttlOf(o) < 0 {
+			refusedTTL = []outcome{same(false)}
+		}
 		if !exists {
 			n := s.clone()
 			n[o.Name] = rec{Type: o.Type, Owners: []int{ip}, Exp: te, RI: ri}
-			return []outcome{{result{OK: true}, n}}
+			return append([]outcome{{result{OK: true}, n}}, refusedTTL...)
 		}
 		// success that leaves the owners as they are (expiry possibly moved by the new TTL)
 		again := func() outcome {
 			n := s.clone()
 			x := n[o.Name]
 			x.Exp = merge(x.Exp, te)
+			x.RI = mergeRI(x.RI, ri)
 			n[o.Name] = x
 			return outcome{result{OK: true}, n}
 		}
@@ -268,6 +338,7 @@ func apply(s state, o op) []outcome {
 				x := n[o.Name]
 				x.Owners = append(x.Owners, ip)
 				x.Exp = merge(x.Exp, te)
+				x.RI = mergeRI(x.RI, ri)
 				n[o.Name] = x
 				outs = []outcome{{result{OK: true}, n}}
 			}
@@ -286,12 +357,18 @@ func apply(s state, o op) []outcome {
 		}
 		if r.Conflict {
 			// a conflict-marked name: the property does not say whether it can be registered
-			// again. Refusal, or a fresh record for the new registrant, both keep the invariants.
-			fresh := s.clone()
-			fresh[o.Name] = rec{Type: o.Type, Owners: []int{ip}, Exp: te, RI: ri}
-			outs = append(outs, same(false), outcome{result{OK: true}, fresh})
+			// again. Refusal, or a fresh record for the new registrant, both keep the invariants -
+			// except where a group registration meets a group: that succeeds as a join, and a group's
+			// owners are all the addresses that registered it and have not released it (a fresh
+			// record would drop the other members).
+			outs = append(outs, same(false))
+			if !(r.Type == 1 && o.Type == 1) {
+				fresh := s.clone()
+				fresh[o.Name] = rec{Type: o.Type, Owners: []int{ip}, Exp: te, RI: ri}
+				outs = append(outs, outcome{result{OK: true}, fresh})
+			}
 		}
-		return outs
+		return append(outs, refusedTTL...)
 	case "query":
 		if !exists || r.Conflict {
 			return []outcome{{result{}, s}}
@@ -328,17 +405,26 @@ func apply(s state, o op) []outcome {
 		}
 		// "RefreshName updates the TTL for a name registration": a successful refresh moves the
 		// expiry to now + refresh interval. With an interval of +1h/+1000h the name is live again
-		// whatever its expiry was; a negative interval (a device of this check) is only held to
-		// keep a name dead that was dead already.
+		// whatever its expiry was; an interval of -1h or 1ns (devices of this check) is only held
+		// to keep a name dead that was dead already.
 		n := s.clone()
 		x := n[o.Name]
-		if x.RI > 0 {
+		switch {
+		case x.RI > 0:
 			x.Exp = live
-		} else {
+		case x.RI < 0:
 			x.Exp = merge(x.Exp, dead)
+		default:
+			x.Exp = open // depends on whose interval applies
 		}
 		n[o.Name] = x
-		return []outcome{{result{OK: true}, n}}
+		outs := []outcome{{result{OK: true}, n}}
+		if r.Conflict {
+			// the property does not say whether a name in conflict can still be refreshed (RFC 1002:
+			// it can only be released): success or an unchanged refusal
+			outs = append(outs, same(false))
+		}
+		return outs
 	case "conflict":
 		if !exists {
 			return []outcome{same(false)}
